@@ -48,7 +48,14 @@
                                                               all_entries_listed_without_filter
    purge = recursive unlink + the ancestors it leaves empty   purge_removes_tree_and_empty_parents, purge_touches_only_below_first_name
    failed operations report failure, touch nothing outside:   unlink_with_failing_call_only_removes_inside (any one of the rmdir / opendir /
-     Directory::unlink when a system call fails               readdir / unlink calls fails), unlink_failing_first_call_changes_nothing
+     Directory::unlink when a system call fails               readdir / unlink calls fails), unlink_failing_first_call_changes_nothing,
+                                                              unlink_fault_not_consumed_is_fault_free (an armed fault the operation does
+                                                              not reach changes nothing: the run is the fault-free one),
+                                                              unlink_reports_failure_only_when_a_call_failed
+   (Which call fails for a given fault position, and so which entries a failed unlink leaves, depends on the order and
+   number of the library's system calls; the text says nothing about them.  These statements are therefore about the
+   outcome only - true => exact cut, false => a call failed, removals inside the directory only - and the property oracle
+   of checks/C19.py asks for no more; the exact prediction d_unlink_o gives is compared with the code as correspondence.)
    Not covered by a theorem (correspondence and the text judge of checks/C19.py only): paths through
    '.', '..' or symbolic links for unlink and for create_succeeds (those theorems are for texts of
    proper names through real directories; exists / rename / copy / open theorems and the other create
@@ -681,6 +688,28 @@ Theorem unlink_failing_first_call_changes_nothing : forall fuel st p r,
 Proof. exact unlink_first_call_fails. Qed.
 Print Assumptions unlink_failing_first_call_changes_nothing.
 
+(* An armed fault that the operation does not reach (the oracle comes back as Some _: fewer calls were
+   made than the position of the fault, no call failed) leaves the fault-free run, exactly - same tree,
+   same answer - for every path text, recursive or not.  The property oracle of checks/C19.py rests on
+   this: it asks for the fault-free outcome whenever the harness reports that the fault was not consumed,
+   and for nothing that depends on the order of the calls otherwise. *)
+Theorem unlink_fault_not_consumed_is_fault_free : forall fuel o st p r st' b n,
+  d_unlink_o fuel o st p r = (st', b, Some n) -> d_unlink_o fuel None st p r = (st', b, None).
+Proof. exact unlink_unconsumed_fault. Qed.
+Print Assumptions unlink_fault_not_consumed_is_fault_free.
+
+(* on the class of the unlink theorem: false is answered only when the fault was consumed, i.e. when a
+   call of the operation did fail (with unlink_with_failing_call_only_removes_inside: a fault that is
+   not consumed means true and the exact cut) *)
+Theorem unlink_reports_failure_only_when_a_call_failed : forall st names c es fuel o st' o',
+  names_ok (names ++ [c]) ->
+  get (root st) ((cwd st ++ names) ++ [c]) = Some (NDir es) ->
+  wf_node (root st) = true -> (height (root st) <= fuel)%nat ->
+  d_unlink_o fuel o st (join (names ++ [c])) true = (st', false, o') ->
+  o <> None /\ o' = None.
+Proof. exact unlink_false_means_consumed. Qed.
+Print Assumptions unlink_reports_failure_only_when_a_call_failed.
+
 (* ---- non-vacuity for round 3 ---------------------------------------------------------------------------- *)
 
 (* flush in a history: true, no byte and no cursor moves *)
@@ -773,6 +802,17 @@ Example ex_unlink_fault :
   (let '(st', ok, _) := d_unlink_o (unlink_fuel demo) None demo [97] true in
    ok = true /\ st' = fst (d_unlink (unlink_fuel demo) demo [97] true)).
 Proof. vm_compute. repeat split; reflexivity. Qed.
+
+(* unlink "a" with the 41st call armed: the operation makes fewer calls, the fault is not consumed (the oracle
+   comes back as Some _), and the run is the fault-free one; with the 7th call armed the answer is false and the
+   oracle comes back empty (hypotheses of the theorem: ex_unlink_hypotheses) *)
+Example ex_unlink_fault_not_consumed :
+  (let '(st', ok, o') := d_unlink_o (unlink_fuel demo) (Some 40%nat) demo [97] true in
+   ok = true /\ o' <> None /\ (st', ok) = d_unlink (unlink_fuel demo) demo [97] true /\
+   d_unlink_o (unlink_fuel demo) None demo [97] true = (st', ok, None)) /\
+  (let '(_, ok, o') := d_unlink_o (unlink_fuel demo) (Some 6%nat) demo (join ([] ++ [[97]])) true in
+   ok = false /\ o' = None).
+Proof. vm_compute. repeat split; try reflexivity. discriminate. Qed.
 
 (* the new operations keep every reachable tree well-formed as well *)
 Example ex_reachable_round3 :
